@@ -105,13 +105,13 @@ def verticalNeighbors (l : Lattice) (ordered : Bool) : List (Nat × Nat) :=
 def neighbors (l : Lattice) (ordered : Bool) : List (Nat × Nat) :=
   l.horizontalNeighbors ordered ++ l.verticalNeighbors ordered
 
-/-- `diagonal_neighbors_iter(ordered)`; `(y + dy) % y_dimension` for `dy = -1, 1`
-(Python's `%` is the floor modulus: `(y - 1) % d = (y + d - 1) % d` for `0 ≤ y`, `d ≥ 1`) -/
+/-- `diagonal_neighbors_iter(ordered)`: the two diagonals of the plaquette with corners
+`(x, y)` and `(x + 1, y + 1)`, indices taken mod the dimensions -/
 def diagonalNeighbors (l : Lattice) (ordered : Bool) : List (Nat × Nat) :=
   (List.range (edgesPer l.x l.periodic)).flatMap fun cx =>
     (List.range (edgesPer l.y l.periodic)).flatMap fun cy =>
-      [(cy + l.y - 1) % l.y, (cy + 1) % l.y].flatMap fun cy' =>
-        emit ordered (l.toSiteIndex cx cy) (l.toSiteIndex ((cx + 1) % l.x) cy')
+      [(cy, cy + 1), (cy + 1, cy)].flatMap fun (yl, yr) =>
+        emit ordered (l.toSiteIndex cx (yl % l.y)) (l.toSiteIndex ((cx + 1) % l.x) (yr % l.y))
 
 /-- edge type codes: 0 onsite, 1 neighbor, 2 diagonal_neighbor, 3 horizontal_neighbor,
 4 vertical_neighbor -/
